@@ -78,6 +78,13 @@ pub fn render(v: &Value) -> Value {
     "r3" => json!([{"id": "R1", "rule": {"pattern": "abc"}, "fix": "<$A>"}]),
     "r4" => json!([{"id": "R1", "rule": {"pattern": "abc", "nthChild": {"position": 1, "ofRule": {"matches": "U9"}}}, "fix": "xyz"}]),
     "r5" => json!([{"id": "R1", "rule": {"any": [{"pattern": "abc"}, {"matches": "U9"}]}, "fix": "xyz"}]),
+    // R1 applies R2 to what it captured; r6: R2 in turn names the undefined R9, r7: the chain resolves
+    "r6" => json!([{"id": "R1", "rule": {"pattern": "$Q", "regex": "^abc$"}, "transform": {"Y": {"rewrite": {"source": "$Q", "rewriters": ["R2"]}}}, "fix": "<$Y>"},
+                   {"id": "R2", "rule": {"pattern": "$P", "regex": "^abc$"}, "transform": {"Z": {"rewrite": {"source": "$P", "rewriters": ["R9"]}}}, "fix": "xyz"}]),
+    "r7" => json!([{"id": "R1", "rule": {"pattern": "$Q", "regex": "^abc$"}, "transform": {"Y": {"rewrite": {"source": "$Q", "rewriters": ["R2"]}}}, "fix": "<$Y>"},
+                   {"id": "R2", "rule": {"pattern": "abc"}, "fix": "xyz"}]),
+    "r8" => json!([{"id": "R1", "rule": {"pattern": "abc"}, "fix": "xyz"},
+                   {"id": "R3", "rule": {"pattern": "$P", "regex": "^abc$"}, "transform": {"Z": {"rewrite": {"source": "$P", "rewriters": ["R9"]}}}, "fix": "q"}]),
     _ => json!([{"id": "R1", "rule": {"pattern": "abc"}}]),
   };
   let mut doc = json!({"id": "t", "language": "JavaScript", "rule": rule});
@@ -92,7 +99,7 @@ pub fn render(v: &Value) -> Value {
 /// expected value of a fix variable on SOURCE (documented in MC_C12: A = abc, X = substring(A) or rewritten A, ...)
 fn expected_fix(v: &Value) -> Value {
   // t7 rewrites A with R1: r1 replaces it by a constant, r3 by a text that quotes the enclosing rule's capture A
-  let x = if v["t"] == "t7" { if v["r"] == "r3" { "<abc>" } else { "xyz" } } else { "abc" };
+  let x = if v["t"] == "t7" { if v["r"] == "r3" { "<abc>" } else if v["r"] == "r7" { "<xyz>" } else { "xyz" } } else { "abc" };
   match v["f"].as_str().unwrap() {
     "f0" => json!(null),
     "f1" | "f5" => json!("bar(abc)"),
